@@ -1,6 +1,7 @@
 import Sucds.Props.C04
 /-! # C03 — SArray answers like the plain bit sequence (partial): SArray is an Elias-Fano sequence over the
-    positions of the set bits; what is proved is what C04 proves for that sequence (`select1`). -/
+    positions of the set bits with universe = length; every query of that sequence is proved in C04. The glue
+    (the positions list is what `unary_iter(0)` yields and the builder accepts all of it) is in progress. -/
 namespace Sucds.C03
-theorem select1_via_elias_fano : type_of% (@Sucds.C04.select_via_high_bits) := @Sucds.C04.select_via_high_bits
+theorem elias_fano_queries : Sucds.C04.Statement := Sucds.C04.holds
 end Sucds.C03
